@@ -77,6 +77,10 @@ def spawn (kind : Kind) (f : Faults) (c : Client) (h : String) : Thread :=
     | _ => .acquire
   ⟨kind, f, c, h, pc⟩
 
+/-- a request as the transport presents it: the handler runs on behalf of the CERTIFICATE identity; the identity the
+peer claims on the stream (`who.claimed`) is not read. -/
+def spawnBy (kind : Kind) (f : Faults) (who : Caller) (h : String) : Thread := spawn kind f who.verified h
+
 /-- the response: tunnel addresses of the jobs whose Put succeeded, in job order. -/
 def publishedOf (n : Nat) (res : List (Nat × String)) : List String :=
   (List.range n).filterMap fun i => (res.find? (fun x => x.1 == i)).map (·.2)
